@@ -342,7 +342,9 @@ func runC20(c *Check) {
 					nAlt++
 					pred := ph.Block().Preds[i]
 					okGuard := false
-					for _, f := range g.NecessaryEdges(func(n *Node) bool { return n.Kind != NEntry && n.In != nil && n.In.Block() == pred && n.Ctx == g.RootCtx }) {
+					for _, f := range g.NecessaryEdges(func(n *Node) bool {
+						return n.Kind != NEntry && n.In != nil && n.In.Block() == pred && n.Ctx == g.RootCtx
+					}) {
 						ft, pol := normFact(f.Cond, f.Pol)
 						if ft.Op != "bin" || len(ft.Args) != 2 {
 							continue
